@@ -19,7 +19,7 @@ from . import c09_eval as E
 from . import c09_gen as G
 
 MANIFEST = {
-    "text": "Coq theorems about an executable model of stix2.equivalence.pattern (66 theorems, all closed under the global "
+    "text": "Coq theorems about an executable model of stix2.equivalence.pattern (66 theorems in Props/C09.v + 17 in Props/C09Src.v, all closed under the global "
             "context): the comparators are lawful total preorders, hence the reported relation is reflexive, symmetric and "
             "transitive and find_equivalent_patterns is the filter of the pairwise test; every pass of the normaliser "
             "(flatten, order/dedupe, absorption with its deletion loop, DNF with root-type pruning, special values, settle) "
@@ -33,7 +33,19 @@ MANIFEST = {
             "every run by a correspondence run on generated patterns (normal forms, equivalent_patterns, "
             "find_equivalent_patterns), with the defect variant of the special-value pass selected by running witnesses.",
     "design_ref": "DESIGN.md 6/C09, Appendix A.5",
-    "note": "Trusted: Coq kernel + vm_compute, the hand-written model (checked against the implementation on every run), "
+    "note": "Source-text tie: translators/tr_patterneq.py reads, on every run, from the ast of stix2/equivalence/pattern the "
+            "type-order tables, the numeric cases of constant_cmp, the fields simple_comparison_expression_cmp compares and "
+            "their order (incl. negated), the case order of comparison_expression_cmp / observation_expression_cmp (exact "
+            "text), the arguments _dupe_ast hands on (incl. negated), the deletion order of both absorption passes, whether "
+            "__is_contained_and consumes the matched operand, the transformers in the simplify / normalise chains and the "
+            "flag logic of ChainTransformer / SettleTransformer, the MATCHES and StringConstant guards, the arithmetic of "
+            "_mask_bytes (as Gallina functions), the bodies of equivalent_patterns / find_equivalent_patterns (every member "
+            "examined, no cache); Props/C09Src.v proves for each that the model's function is the one these choices denote "
+            "(source_* theorems) and refutes the recognised alternatives; an unrecognised text aborts the translator naming "
+            "the function; the special-value variant read from the text must equal the one shown by running the witnesses.  "
+            "Not read from the text: the bodies of the flatten / order / DNF transformers, _path_is, ipv4_addr / ipv6_addr "
+            "beyond their guards (correspondence run only).  "
+            "Trusted: Coq kernel + vm_compute, the hand-written model (checked against the implementation on every run), "
             "the restated platform functions inet_aton/inet_pton/inet_ntoa/inet_ntop/int()/str.lower() (below U+0100), the "
             "binding semantics of Spec/PatternSemantics.v.  Totality is proved (equiv_never_raises: on constructor-valid "
             "patterns some fuel suffices and the answer does not depend on it; settle loops and both DNF recursions "
@@ -44,7 +56,8 @@ MANIFEST = {
             "C09-absorption-qualified-operand); rule instances strictly inside a larger expression of the same level are "
             "covered by the oracle only.  The pinned "
             "special-value pass is unsound / raises on some valid patterns: *_refuted theorems, known findings.",
-    "technique": "Coq proof over a hand-written executable model + correspondence run + independent pattern evaluator",
+    "technique": "Coq proof over a hand-written executable model + correspondence run + independent pattern evaluator "
+                 "+ source-text tie (fail-closed translator -> Gen facts -> Props/C09Src.v)",
 }
 
 HEADER = """From Coq Require Import ZArith NArith List String.
@@ -410,6 +423,29 @@ def select_mode(run):
     return "(mkVariant %s %s)" % ("Unguarded" if unguarded else "Guarded", "LowerRegex" if lowers else "KeepRegex")
 
 
+def source_step(run):
+    """translators/tr_patterneq.py -> Gen/PatternEqFacts.v -> Props/C09Src.v.  Call inside common.Lock().
+    Returns the facts read from the text, or None (translator abort: the obligations count as undischarged)."""
+    import os
+    import tr_patterneq
+    facts = None
+    try:
+        text, facts = tr_patterneq.translate(common.REPO, None)
+        common.write_if_changed(os.path.join(common.COQ, "Gen", "PatternEqFacts.v"), text)
+    except tr_patterneq.TranslateError as e:
+        run.broken.append(Broken("translator", "tr_patterneq: " + str(e)[:200], {"error": str(e)}))
+    except (OSError, SyntaxError, ValueError, AttributeError, IndexError, KeyError, TypeError) as e:
+        run.broken.append(Broken("translator", "tr_patterneq", {"error": "%s: %s" % (type(e).__name__, e)}))
+    if facts is not None:
+        res = common.build_props("Props/C09Src.v")
+        run.add_build(res, "make -C coq Props/C09Src.vo (the model's choices are those of the source text: "
+                           "translators/tr_patterneq.py -> Gen/PatternEqFacts.v)")
+        run.coverage["source_text_choices"] = dict(facts)
+    else:
+        run.coverage["obligations"] = run.coverage.get("obligations", 0) + len(common.theorems_in("Props/C09Src.v"))
+    return facts
+
+
 def check(run):
     thorough = run.tier == "thorough"
     nfam = 1500 if thorough else 240
@@ -438,7 +474,14 @@ def check(run):
     with common.Lock():
         res = common.build_props("Props/C09.v")
         run.add_build(res, "make -C coq Props/C09.vo (coqc 8.16.1, full .vo) + Print Assumptions per theorem")
+        facts = source_step(run)
     mode = select_mode(run)
+    if facts is not None:
+        src_mode = "(mkVariant %s %s)" % (facts["special_mode"], facts["regex_mode"])
+        if src_mode != mode:
+            run.broken.append(Broken(
+                "correspondence", "the special-value pass denoted by the source text and the one shown by running the witnesses differ",
+                {"text": src_mode, "behaviour": mode}))
 
     # ---- generate
     rng = run.rng
